@@ -26,6 +26,65 @@ def cross_wired_options(ctx, rule_id, files, what):
         ctx.emit(rule_id, True, files[0], None, f'{n} parameters stored under their own name; none stored under the name of another parameter', key='option-wiring', nontrivial=n > 0)
 
 
+def _own_generators(m):
+    return {fd.name for fd in ast.walk(m.tree) if isinstance(fd, ast.FunctionDef) and any(isinstance(x, (ast.Yield, ast.YieldFrom)) for x in walk_no_nested(fd))}
+
+
+def _generator_names(ctx, m, files):
+    """generator functions callable by their plain name in module m: its own, and module-level ones of the property's other files that m imports by name"""
+    gens = set(_own_generators(m))
+    imported = {a.asname or a.name: a.name for st in m.tree.body if isinstance(st, ast.ImportFrom) for a in st.names}
+    if imported:
+        for rel in files:
+            if not ctx.ix.exists(rel):
+                continue
+            o = ctx.ix.module(rel)
+            if o is m:
+                continue
+            top = {fd.name for fd in o.tree.body if isinstance(fd, ast.FunctionDef) and any(isinstance(x, (ast.Yield, ast.YieldFrom)) for x in walk_no_nested(fd))}
+            gens |= {local for local, orig in imported.items() if orig in top}
+    return gens
+
+
+def _one_shot_value(v, gens):
+    from ..util import ONE_SHOT_BUILTINS
+    if isinstance(v, ast.GeneratorExp):
+        return 'a generator expression'
+    if isinstance(v, ast.Call):
+        d = dotted(v.func) or ''
+        ln = d.split('.')[-1]
+        if d in ONE_SHOT_BUILTINS:
+            return f'{d}(..)'
+        if d.startswith('itertools.') and ln not in ('tee',):
+            return f'{d}(..)'
+        if ln in gens and (d == ln or d == 'self.' + ln):
+            return f'the generator {ln}(..)'
+    return None
+
+
+def saved_one_shot_results(ctx, rule_id, files, what):
+    """a method that saves its result in an attribute and answers later calls from it (`if self.X is None: self.X = ...; return self.X`) must save a re-iterable
+    value: a generator / zip / map object is exhausted by the first caller, every later caller iterates over nothing.  Number of saving methods seen."""
+    n = 0
+    for rel in files:
+        if not ctx.ix.exists(rel):
+            continue
+        m = ctx.ix.module(rel)
+        gens = _generator_names(ctx, m, files)
+        for fd in [x for x in ast.walk(m.tree) if isinstance(x, ast.FunctionDef) and x.args.args and x.args.args[0].arg == 'self']:
+            returned = {src(r.value) for r in walk_no_nested(fd) if isinstance(r, ast.Return) and isinstance(r.value, ast.Attribute) and src(r.value.value) == 'self'}
+            for st in walk_no_nested(fd):
+                if isinstance(st, ast.Assign) and len(st.targets) == 1 and src(st.targets[0]) in returned:
+                    n += 1
+                    kind = _one_shot_value(st.value, gens)
+                    if kind is not None:
+                        ctx.emit(rule_id, False, rel, st, f'{fd.name} saves {kind} in {src(st.targets[0])} and returns the saved object on later calls: the first consumer exhausts it, every later '
+                                 f'call gets an iterator that yields nothing', key=f'saved-one-shot:{fd.name}:{src(st.targets[0])}',
+                                 witness={'history': [f'list(x.{fd.name}()) -> the items', f'list(x.{fd.name}()) -> []']}, what=f'{what}: the second call of {fd.name} yields nothing')
+    return n
+
+
+
 def single_pass_iterators(ctx, rule_id, files, what):
     """no function of `files` consumes a single-pass iterator twice (see util.one_shot_reuse)"""
     nfun = 0
@@ -34,7 +93,7 @@ def single_pass_iterators(ctx, rule_id, files, what):
         if not ctx.ix.exists(rel):
             continue
         m = ctx.ix.module(rel)
-        gens = {fd.name for fd in ast.walk(m.tree) if isinstance(fd, ast.FunctionDef) and any(isinstance(x, (ast.Yield, ast.YieldFrom)) for x in walk_no_nested(fd))}
+        gens = _generator_names(ctx, m, files)
         for fd in [x for x in ast.walk(m.tree) if isinstance(x, (ast.FunctionDef, ast.AsyncFunctionDef))]:
             nfun += 1
             for name, bind, s1, s2, text in one_shot_reuse(fd, gens):
@@ -200,6 +259,7 @@ def register(prop, title):
                               'the first call), and a memoised lookup method of a class that changes after construction is cleared by every method that writes what it reads')
     def s3(ctx, prop=prop, title=title):
         memoised_functions(ctx, f'{prop}-S3', prop, files_of(ctx, prop), title)
+        saved_one_shot_results(ctx, f'{prop}-S3', files_of(ctx, prop), title)
     return s1
 
 
